@@ -238,7 +238,7 @@ def interp_reference(ctx, code, twins, sc, n_runs, has_y):
             it.next_phase = e.next_phase
             outcome = "switched"
         except Exception as e:
-            if type(e) in ERRORS.values():
+            if type(e).__name__ in ("ErrA", "ErrB"):
                 ref.append({"outcome": "raised", "kind": type(e).__name__})
                 break
             raise Discard("ill-defined:interpreter-raises:" + type(e).__name__)
